@@ -133,9 +133,7 @@ buffer of capacity `streamReadMinBufferSize` (all call sites: `Read`, `WriteTo`,
 theorem no_panic_streamRead (cap : Nat) (hcap : Gen.C06.streamReadMinBufferSize ≤ cap) (sticky : Option Err)
     (openChunk : Bytes → Option Bytes) (stream : Bytes) : streamRead cap sticky openChunk stream ≠ .panic :=
   np_streamRead cap hcap sticky openChunk stream
-/-- `readChunk` slices without a capacity check of its own: it is reached only through `read`'s guard
-(regenerated fact: every call of `readChunk` is inside `ShadowStreamConn.read`) -/
-theorem streamReadChunk_only_behind_guard : Gen.C06.readChunkOnlyCalledFromRead = true := by decide
+
 /-- the call site with the tightest buffer: `writeBuf[2+tagSize : 2+tagSize]` of a `streamWriteBufferSize` buffer -/
 theorem streamRead_callsite_cap : Gen.C06.streamReadMinBufferSize ≤ Gen.C06.streamWriteBufferSize - (2 + Gen.C06.tagSize) := by decide
 /-- the largest chunk fits: `streamMaxPayloadSize + tagSize ≤ streamReadMinBufferSize`, and a u16 length cannot exceed it -/
@@ -316,7 +314,7 @@ theorem shape_ShadowPacketClientUnpack : Gen.C06.ShadowPacketClientUnpack_shape 
     ["if packetLen < UDPSeparateHeaderLength+16 => return", "b[packetStart:messageHeaderStart]", "separateHeader[4:16]", "b[messageHeaderStart : packetStart+packetLen]", "call Uint64", "call Uint64", "separateHeader[8:]", "case time.Since(p.oldServerSessionLastSeenTime) < time.Minute", "separateHeader[:8]", "ciphertext[:0]", "call .MustAdd"] := rfl
 
 theorem shape_DirectServerPack : Gen.C06.DirectServerPack_shape =
-    ["if packetLen > maxPacketLen", "call .IPPort"] := rfl
+    ["call .IPPort"] := rfl
 
 theorem shape_NoneClientUnpack : Gen.C06.NoneClientUnpack_shape =
     ["b[packetStart : packetStart+packetLen]"] := rfl
@@ -397,10 +395,7 @@ theorem shape_serverHandleBasicAuth : Gen.C06.serverHandleBasicAuth_shape =
     ["header[\"Proxy-Authorization\"]", "if len(creds) > len(prefix) && (creds[0] == 'B' || creds[0] == 'b') && (creds[1] == 'a' || creds[1] == 'A') && (creds[2] == 's' || creds[2] == 'S') && (creds[3] == 'i' || creds[3] == 'I') && (creds[4] == 'c' || creds[4] == 'C') && creds[5] == ' ' => return", "creds[0]", "creds[0]", "creds[1]", "creds[1]", "creds[2]", "creds[2]", "creds[3]", "creds[3]", "creds[4]", "creds[4]", "creds[5]", "creds[len(prefix):]"] := rfl
 
 theorem shape_ShadowStreamConnRead : Gen.C06.ShadowStreamConnRead_shape =
-    ["if cap(b) < streamReadMinBufferSize => return", "panic"] := rfl
-
-theorem shape_ShadowStreamConnReadChunk : Gen.C06.ShadowStreamConnReadChunk_shape =
-    ["b[:2+tagSize]", "call Uint16", "b[:length+tagSize]"] := rfl
+    ["if cap(b) < streamReadMinBufferSize => return", "panic", "b[:2+tagSize]", "call Uint16", "b[:length+tagSize]"] := rfl
 
 theorem audited_shape_StreamServerHandleStream : Gen.C06.StreamServerHandleStream_shape =
     ["if bufferLen <= cap(writeBuf)", "writeBuf[:bufferLen]", "b[:reservedStart]", "if n > 0 && s.unsafeFallbackAddr.IsValid() => return", "readBuf[:n]", "b[:urspLen]", "b[urspLen:identityHeaderStart]", "b[fixedLengthHeaderStart:reservedStart]", "b[reservedStart:]", "b[identityHeaderStart:fixedLengthHeaderStart]", "conv [IdentityHeaderLength]byte", "if bufferLen <= cap(writeBuf)", "writeBuf[:bufferLen]"] := rfl
@@ -459,19 +454,19 @@ theorem shape_PutTCPRequestVariableLengthHeader : Gen.C06.PutTCPRequestVariableL
     ["call PutUint16", "b[n:]", "b[n:]"] := rfl
 
 theorem shape_DirectClientPack : Gen.C06.DirectClientPack_shape =
-    ["call .IPPort", "if packetLen > maxPacketLen"] := rfl
+    ["call .IPPort"] := rfl
 
 theorem shape_NoneClientPack : Gen.C06.NoneClientPack_shape =
-    ["if packetLen > p.maxPacketSize", "b[packetStart:]"] := rfl
+    ["b[packetStart:]"] := rfl
 
 theorem shape_NoneServerPack : Gen.C06.NoneServerPack_shape =
-    ["if packetLen > maxPacketLen", "b[packetStart:]"] := rfl
+    ["b[packetStart:]"] := rfl
 
 theorem shape_Socks5ClientPack : Gen.C06.Socks5ClientPack_shape =
-    ["if packetLen > p.maxPacketSize", "b[packetStart:]", "b[packetStart+3:]"] := rfl
+    ["b[packetStart:]", "b[packetStart+3:]"] := rfl
 
 theorem shape_Socks5ServerPack : Gen.C06.Socks5ServerPack_shape =
-    ["if packetLen > maxPacketLen", "b[packetStart:]", "b[packetStart+3:]"] := rfl
+    ["b[packetStart:]", "b[packetStart+3:]"] := rfl
 
 theorem shape_WriteAddrFromConnAddr : Gen.C06.WriteAddrFromConnAddr_shape =
     ["call .IPPort", "call .Domain", "b[0]", "b[1]", "b[2:]", "call PutUint16", "b[1+1+len(domain):]"] := rfl
@@ -514,7 +509,6 @@ end SSV.C06
 #print axioms SSV.C06.no_panic_socks5ServerUnpack
 #print axioms SSV.C06.no_panic_socks5ClientUnpack
 #print axioms SSV.C06.no_panic_streamRead
-#print axioms SSV.C06.streamReadChunk_only_behind_guard
 #print axioms SSV.C06.streamRead_callsite_cap
 #print axioms SSV.C06.streamRead_u16_fits
 #print axioms SSV.C06.no_panic_hostHeaderToAddr
@@ -581,7 +575,6 @@ end SSV.C06
 #print axioms SSV.C06.shape_hostHeaderToAddr
 #print axioms SSV.C06.shape_serverHandleBasicAuth
 #print axioms SSV.C06.shape_ShadowStreamConnRead
-#print axioms SSV.C06.shape_ShadowStreamConnReadChunk
 #print axioms SSV.C06.audited_shape_StreamServerHandleStream
 #print axioms SSV.C06.audited_shape_ShadowStreamClientInitRead
 #print axioms SSV.C06.audited_shape_readOnceExpectFull
